@@ -701,7 +701,9 @@ class SAMIParser(HTMLParser):
             self.sami += f"</{closing_tag}>"
 
     def handle_entityref(self, name):
-        if name in ['gt', 'lt']:
+        # these are decoded by the second (BeautifulSoup) pass; emitting
+        # them raw here would decode '&amp;lt;' twice
+        if name in ['gt', 'lt', 'amp']:
             self.sami += f'&{name};'
         else:
             try:
@@ -712,10 +714,11 @@ class SAMIParser(HTMLParser):
         self.last_element = ''
 
     def handle_charref(self, name):
+        # escape(): '&#60;' must not become markup for the second pass
         if name[0] == 'x':
-            self.sami += chr(int(name[1:], 16))
+            self.sami += escape(chr(int(name[1:], 16)))
         else:
-            self.sami += chr(int(name))
+            self.sami += escape(chr(int(name)))
 
     # override the parser's handling of data
     def handle_data(self, data):
